@@ -277,7 +277,7 @@ def families(opts):
         if not res.get('valid') or res.get('type') != 'algebraic':
             rep('flat-model-analysed-as-%s' % res.get('type'), {'issues': [x for x in res.get('analyse_issues', []) if x['level'] == 'ERROR'][:3]})
             return
-        ctx.outcome('flat-ok')
+        ctx.outcome('flat-ok:%s:%s:%s' % (case['structure'], case['libunits'], case['unitsclash']))
         idx = {(v['comp'], v['var']): v['index'] for v in res.get('variables', [])}
         for prof in ('C', 'Python'):
             try:
